@@ -227,6 +227,9 @@ func runDaemon1(t *testing.T, sc *DaemonScenario, dump io.Writer) (res RunResult
 				return
 			}
 			e.body(&res)
+			if res.VirtualMs == 0 && !e.start.IsZero() {
+				res.VirtualMs = time.Since(e.start).Milliseconds()
+			}
 		})
 	}()
 	UninstallYields()
